@@ -421,15 +421,20 @@ theorem facts_kitty_formats : ImageFlow.kittyFormats = ImageFlowExpected.kittyFo
 /-- **The placement loops of `render` as regenerated** (statement skeleton, interpreted by `Model.Placements.renderShaped`):
     every statement is there and nothing else is — delete-and-continue on refresh, skip when a same placement follows,
     delete; empty the last list on refresh; skip when a same placement was there, move the cursor and write;
-    `last = next` — so the interpreted step the driver runs is the `step` about which `placement_diff` speaks. -/
+    `last = next` — and `Window.Clear` assigns a fresh empty next-frame list (round 4: `Gen.clearPlacements`, from
+    window.go) — so the interpreted step the driver runs is the `step` about which `placement_diff` speaks. -/
 theorem render_shape :
-    renderShape = ⟨true, true, true, true, true, true, true, []⟩ ∧
+    renderShape = ⟨true, true, true, true, true, true, true, []⟩ ∧ clearPlacements = .fresh ∧
     ∀ s op, VaxisModel.Model.Placements.stepGen s op = VaxisModel.Model.Placements.step s op := by
   have h : renderShape = ⟨true, true, true, true, true, true, true, []⟩ := by decide
-  refine ⟨h, ?_⟩
+  have hc : clearPlacements = .fresh := by decide
+  refine ⟨h, hc, ?_⟩
   intro s op
   unfold VaxisModel.Model.Placements.stepGen VaxisModel.Model.Placements.step
-  rw [h]
-  exact VaxisModel.Lemmas.Placements.stepShaped_std _ s op
+  cases op with
+  | clear => simp only [hc, VaxisModel.Model.Placements.clearWith, VaxisModel.Model.Placements.stepWith]
+  | draw p => simp only [h]; exact VaxisModel.Lemmas.Placements.stepShaped_std _ s _
+  | render => simp only [h]; exact VaxisModel.Lemmas.Placements.stepShaped_std _ s _
+  | refresh => simp only [h]; exact VaxisModel.Lemmas.Placements.stepShaped_std _ s _
 
 end VaxisModel.Props.C20Ext
